@@ -121,8 +121,23 @@ def case(rec, pvl, new, text, src, wit):
     rec.count("content_equal")
     # the other ways in: bytes, an open text stream; and dump to a stream
     data = text.encode("utf-8")
+    # bytes that are not all decodable: image data behind END, and a stray
+    # undecodable byte somewhere in the middle of the text (whatever the
+    # default loader makes of it, the new one has to make the same)
+    tailed = data + b"\nEND\n\xff\xfe\x00\x81" + b"\x00" * 20
+    cut = (len(data) * 2) // 3
+    nl = data.find(b"\n", cut)
+    cut = nl + 1 if nl >= 0 else cut
+    broken = data[:cut] + b"\xff\xfe" + data[cut:]
     for rname, fo, fn in (
             ("loads(bytes)", lambda: pvl.loads(data), lambda: new.loads(data)),
+            ("loads(bytes+data)", lambda: pvl.loads(tailed), lambda: new.loads(tailed)),
+            ("loads(bytes with a bad byte inside)", lambda: pvl.loads(broken),
+             lambda: new.loads(broken)),
+            ("load(binary stream+data)", lambda: pvl.load(io.BytesIO(tailed)),
+             lambda: new.load(io.BytesIO(tailed))),
+            ("load(binary stream with a bad byte inside)",
+             lambda: pvl.load(io.BytesIO(broken)), lambda: new.load(io.BytesIO(broken))),
             ("load(text stream)", lambda: pvl.load(io.StringIO(text)),
              lambda: new.load(io.StringIO(text))),
             ("load(binary stream)", lambda: pvl.load(io.BytesIO(data)),
